@@ -10,7 +10,7 @@ from core import InfraError, hexf, unhex
 _exe = {}
 
 # ---- S block layout (harness/thdm.cpp block_S) --------------------------------------
-S_LEN, A_LEN, T_LEN, Y_LEN = 95, 4, 17, 216
+S_LEN, A_LEN, T_LEN, Y_LEN = 96, 4, 17, 216
 MHH0, MHH1, MAH0, MAH1, MHM0, MHM1, SBA, CBA, TB = range(9)
 LAM = slice(9, 16)
 M122, MW, MZ = 16, 17, 18
@@ -25,6 +25,7 @@ SM_V, SM_MH = 85, 86
 ZETA = slice(87, 90)
 MVG, MVP = 90, 91
 SM_AEM, SM_AS, ALPHA_EM = 92, 93, 94
+PROBLEM = 95
 YNAMES = ["yuh", "yuH", "yuA", "yuHp", "ydh", "ydH", "ydA", "ydHp", "ylh", "ylH", "ylA", "ylHp"]
 TYPES = {1: "I", 2: "II", 3: "X", 4: "Y", 5: "aligned", 6: "general"}
 
@@ -43,7 +44,7 @@ def exe():
     if "plain" not in _exe:
         _exe["plain"] = build.harness("thdm", "plain", ["thdm.cpp"])
         p = subprocess.run([_exe["plain"]], input="hello\n", stdout=subprocess.PIPE, text=True, timeout=60)
-        if "THDM-HARNESS 3 S95 A4 T17 Y216" not in p.stdout:
+        if "THDM-HARNESS 5 S96 A4 T17 Y216" not in p.stdout:
             raise InfraError("thdm harness: unexpected hello: %r" % p.stdout[:200])
     return _exe["plain"]
 
@@ -81,14 +82,16 @@ def sm_from(a):
 
 
 def case(basis, p, ytype=2, run=1, ckm=1, mhsm="-", z=(0.0, 0.0, 0.0),
-         D=(None, None, None), P=(None, None, None), sm=None):
-    """canonical, JSON-able case description; sm: dict of SM input overrides (keys SM_KEYS)"""
+         D=(None, None, None), P=(None, None, None), sm=None, force=0, post=()):
+    """canonical, JSON-able case description; sm: dict of SM input overrides (keys SM_KEYS);
+    run / force: thdm::Config::running_couplings / force_output;
+    post: arguments of the set_tan_beta calls applied to the object after construction"""
     if mhsm is None:
         mhsm = "-"
     return {"basis": basis, "p": [float(x) for x in p], "ytype": int(ytype), "run": int(run),
             "ckm": int(ckm), "mhsm": mhsm if isinstance(mhsm, str) else hexf(mhsm),
             "z": [float(x) for x in z], "D": list(D), "P": list(P),
-            "sm": {k: float(v) for k, v in sorted((sm or {}).items())}}
+            "sm": {k: float(v) for k, v in sorted((sm or {}).items())}, "force": int(force), "post": [float(x) for x in post]}
 
 
 def sm_token(sm):
@@ -98,9 +101,10 @@ def sm_token(sm):
 
 
 def line(cid, c, ops):
-    return " ".join([str(cid), c["basis"], str(c["ytype"]), str(c["run"]), str(c["ckm"]), c["mhsm"], sm_token(c.get("sm"))]
+    return " ".join([str(cid), c["basis"], str(c["ytype"]), str(c["run"] + 2 * c.get("force", 0)), str(c["ckm"]), c["mhsm"], sm_token(c.get("sm"))]
                     + [hexf(x) for x in c["p"]] + [hexf(x) for x in c["z"]]
-                    + [mat_token(m) for m in c["D"]] + [mat_token(m) for m in c["P"]] + [ops])
+                    + [mat_token(m) for m in c["D"]] + [mat_token(m) for m in c["P"]]
+                    + [ops + ("@" + ",".join(hexf(x) for x in c["post"]) if c.get("post") else "")])
 
 
 class Res:
